@@ -398,6 +398,11 @@ class Byzantine:
             else:
                 first = r.choice([R.P_NOTIFY, R.P_SA, R.P_VENDOR])
             exp = ('trailing', 'dangling next-payload: last payload announces a successor but the data ends: ' + str([PT.get(p['type'], p['type']) for p in pls]))
+        surplus = b''
+        if 0.3 <= damage < 0.38 and not crit_unknown:
+            # a complete message followed by octets the header's Length field does not announce (the field itself left alone)
+            surplus = bytes(r.getrandbits(8) for _ in range(r.choice([1, 4, 5, 16, 28])))
+            exp = ('trailing', 'octets behind the end the header announces: ' + str([PT.get(p['type'], p['type']) for p in pls]))
         cands = [sa for sa in node.ike_sas() if sa.ike_sa_keyring is not None and _keys_for(sa)]
         flags_variety = r.choice([0, 0, 0x10, 0x01, 0x40]) if exp[0] == 'accept' else 0
         if cands and r.random() < 0.6:
@@ -421,12 +426,12 @@ class Byzantine:
                 extra = r.choice([1, 2, 7, 14])
                 self.watch._r('byz.over_padded')
             data = _seal_raw(h, first, chain, integ_id, sk_a, sk_e, bytes(r.getrandbits(8) for _ in range(16)), outer=outer, pad_extra=extra)
-            return data, exp, (pls if exp[0] != 'trailing' else None)
+            return data + surplus, exp, (pls if exp[0] != 'trailing' else None)
         # clear: an IKE_SA_INIT request is parsed in full whoever sends it (a new responder IKE_SA)
         flags = 0x08 | (flags_variety & 0x10)
         total = 28 + len(chain)
         data = struct.pack('>8s8sBBBBLL', bytes(r.getrandbits(8) for _ in range(8)), b'\0' * 8, first, 0x20, 34, flags, 0, total) + chain
-        return data, exp, None
+        return data + surplus, exp, None
 
 
 def generate(seed, tier):
